@@ -1,5 +1,5 @@
 (* Every numbered skeleton is well-formed in the sense the renamer theorems assume. *)
-From V Require Import Common.Base C15.Names C15.NamesProofs C15.Renamer C15.Spec C15.NumberProofs C15.SlotsProofs C15.ScopeBuild.
+From V Require Import Common.Base C15.Names C15.NamesProofs C15.Renamer C15.Spec C15.NumberProofs C15.SlotsProofs C15.ScopeBuild C15.ScopeProg.
 
 Lemma number_sk_unfold env fresh shared ch n :
   number_sk env (Sk fresh shared ch) n =
@@ -272,3 +272,8 @@ Proof.
     rewrite M, wf_refs_ok by (intros r _; right; intros []).
     rewrite !app_nil_r, W. reflexivity.
 Qed.
+
+Lemma parse_forest_wellformed_all prog :
+  let '(m, st) := parse_forest prog in
+  wf_slots st m = true /\ wf_number st (module_top m) (sc_children m) = true.
+Proof. unfold parse_forest. apply build_sk_wellformed_all. Qed.
